@@ -142,7 +142,7 @@ func init() {
 				case "sign_default":
 					sig, err = priv.Sign(rd, msg, sm2.DefaultSM2SignerOpts)
 				case "signwithsm2":
-					sig, err = priv.SignWithSM2(rd, uid, msg)
+					sig, err = priv.SignWithSM2(rd, uidSlot(uid), msg)
 				case "sign_nil":
 					sig, err = priv.Sign(rd, dig, nil)
 				case "signasn1_nil":
@@ -154,7 +154,7 @@ func init() {
 					r, s, err = sm2.Sign(rd, ecSlot(priv), dig)
 				case "legacy_signwithsm2":
 					ints = true
-					r, s, err = sm2.SignWithSM2(rd, ecSlot(priv), uid, msg)
+					r, s, err = sm2.SignWithSM2(rd, ecSlot(priv), uidSlot(uid), msg)
 				default:
 					panic("harness: sm2dsa: unknown sign entry " + st.Str("entry"))
 				}
@@ -203,7 +203,7 @@ func init() {
 					case "asn1":
 						got = sm2.VerifyASN1(pub, dig, sig)
 					case "asn1sm2":
-						got = sm2.VerifyASN1WithSM2(pub, uid, msg, sig)
+						got = sm2.VerifyASN1WithSM2(pub, uidSlot(uid), msg, sig)
 					case "x509":
 						got = (&smx509.Certificate{PublicKey: pub}).CheckSignature(smx509.SM2WithSM3, msg, sig) == nil
 					case "x509digest":
@@ -212,7 +212,7 @@ func init() {
 						got = sm2.Verify(pub, dig, r, s)
 						exp = st.Str("expi") == "01"
 					case "legacysm2":
-						got = sm2.VerifyWithSM2(pub, uid, msg, r, s)
+						got = sm2.VerifyWithSM2(pub, uidSlot(uid), msg, r, s)
 						exp = st.Str("expi") == "01"
 					default:
 						panic("harness: sm2dsa: unknown verify entry " + en)
